@@ -19,7 +19,7 @@ RULE = (
 )
 REQUIRED = {
     "cmaes_tells": 300, "cmaes_updates": 30, "best_ledger_checks": 300,
-    "mean_recombination_checks": 20, "cmaes_bounded_runs": 3, "round_trips": 6, "cem_samples_checked": 500,
+    "mean_recombination_checks": 20, "cmaes_bounded_runs": 3, "round_trips": 8, "cem_samples_checked": 500,
     "cem_updates_checked": 20, "train_cmaes_runs": 1,
 }
 TIMEOUT = {"quick": 1200, "thorough": 7000}
@@ -39,8 +39,8 @@ def gen_cases(tier, seed):
                                               "inf", "nan", "const"])),
                           maximize=bool(rng.integers(2)),
                           seed=int(rng.integers(1 << 30)), cost=4))
-    for i in range(6 * k):
-        cases.append(dict(kind="roundtrip", arch=i % 6,
+    for i in range(8 * k):
+        cases.append(dict(kind="roundtrip", arch=i % 8,
                           seed=int(rng.integers(1 << 30)), cost=2))
     for i in range(30 * k):
         cases.append(dict(kind="cem", seed=int(rng.integers(1 << 30)), cost=1))
@@ -244,6 +244,11 @@ def run_roundtrip(case):
         net = LayerNormMLP(3, 2, [5, 4], "relu", r)
     elif arch == 4:
         net = ph.DeterministicTanhPolicy(MLP(3, 2, [5], "relu", r), space)
+    elif arch == 6:
+        # deep: more than ten entries in the layer list
+        net = MLP(3, 2, [3] * int(rng.integers(11, 14)), "tanh", r)
+    elif arch == 7:
+        net = LayerNormMLP(3, 2, [3] * 12, "relu", r)
     else:
         net = ph.GaussianTanhPolicy(GaussianMLP(True, 3, 2, [5], "tanh", r), space)
     ok, flat = guarded(res, "C16/raises/flat_params", cm.flat_params, net)
